@@ -26,13 +26,17 @@ RULE = (
     "schedules (arrival times in µs, token rows of mixed length, per-batch model latency 0..50 ms) enumerated and "
     "drawn from VERIF_SEED: bursts of 1..100 and 161..260 callers (below/at/above the batch threshold 8, above the queue "
     "depth 80 → back-pressure, above 2·80 → re-parked callers), trickles spaced 0.5/0.99/1.0/1.01/2 ms around the 1 ms "
-    "gather timeout, arrivals landing during and exactly at the end of a model call, random mixes; rows include zeros inside and at the end, "
+    "gather timeout, arrivals landing during and exactly at the end of a model call, random mixes, and closed-loop load (N callers "
+    "re-submitting as soon as answered, a majority row length, other lengths injected after a few model runs); rows include zeros inside and at the end, "
     "exact duplicates, and families that are equal once zero-padded (row B = row A ++ [0]*k; for the real network: real encodings of "
     "empty / sparsely filled boards of different sizes with equal custom reserves, e.g. Config(size=3, pieces=15) vs default 4x4). One evaluation = one "
     "schedule run through the real Server on the virtual-time loop with (a) the fingerprinting model or (b) a real "
     "xformer.Transformer+PolicyValue compared with local ModelWrapper.evaluate (1e-5), its trace validated and its "
     "deliveries compared by the Lean driver (the shape and row order of the model call are NOT compared); plus GRPCNetwork.evaluate end to end through the in-process stub channel "
-    "and the float32 byte codec against the Lean codec. Non-trivial = a run with at least one batch of two or more "
+    "and the float32 byte codec against the Lean codec; on every run the k+1 bound of C17_fifo_progress is evaluated by the driver on the "
+    "observed timeline (entered queue / model call completed / caller answered; key starved); client SESSIONS: one long-lived GRPCNetwork + "
+    "server while the served module's weights change in place (SGD step, load_state_dict, in-place add), every reply compared with "
+    "ModelWrapper.evaluate on the current weights (keys client-stale, not-local-equal). Non-trivial = a run with at least one batch of two or more "
     "rows, or with a parked caller; distinct by schedule text."
 )
 TRUSTED = [
@@ -90,10 +94,13 @@ class Tracer:
         self.tokens = {}
         self.batches = []
         self.pending_done = 0
+        self.timeline = []  # Q:<id> entered the queue, D model call completed, X:<id> caller answered
 
     def rec(self, ev):
         self.events.append(ev)
         self.times.append(self.loop.time())
+        if ev == "D":
+            self.timeline.append("D")
 
 
 class TracingMixin:
@@ -124,8 +131,9 @@ class TracingMixin:
             self.tracer.rec("E:%d" % i)
 
     def put_nowait(self, item):
-        self._announce(item)
+        i = self._announce(item)
         super().put_nowait(item)
+        self.tracer.timeline.append("Q:%d" % i)
 
     def get_nowait(self):
         item = super().get_nowait()
@@ -215,12 +223,27 @@ def _fp_of_response(resp):
     return "%s/%s" % (vs, ".".join(map(str, sup)) if sup else "-")
 
 
+def _payloads(sched):
+    """what each request asks about (token row, or position text), per request id: the open-loop
+    arrivals first, then the requests of the closed-loop clients, client by client"""
+    out = [a[1] for a in sched["arrivals"]]
+    for lp in sched.get("loops", []):
+        out += list(lp[1])
+    return out
+
+
 def _tokens_of(sched):
-    """token rows per request id (= index in the schedule)"""
+    """token rows per request id"""
     if sched["mode"] == "fp":
-        return [list(a[1]) for a in sched["arrivals"]]
+        return [list(p) for p in _payloads(sched)]
     enc = _impl()["encoding"]
-    return [enc.encode(ser.parse_pos(a[1].split(" "))) for a in sched["arrivals"]]
+    cache = {}
+    out = []
+    for p in _payloads(sched):
+        if p not in cache:
+            cache[p] = enc.encode(ser.parse_pos(p.split(" ")))
+        out.append(cache[p])
+    return out
 
 
 def _local_evals(sched, model):
@@ -228,10 +251,10 @@ def _local_evals(sched, model):
     S = _impl()
     w = S["wrapper"].ModelWrapper(model=model)
     out = {}
-    for a in sched["arrivals"]:
-        if a[1] not in out:
-            probs, value = w.evaluate(ser.parse_pos(a[1].split(" ")))
-            out[a[1]] = (probs.numpy(), float(value))
+    for p in _payloads(sched):
+        if p not in out:
+            probs, value = w.evaluate(ser.parse_pos(p.split(" ")))
+            out[p] = (probs.numpy(), float(value))
     return out
 
 
@@ -275,15 +298,17 @@ def run_schedule(sched):
     deliveries = []
     crash = None
 
-    async def client(i):
-        req = S["pb2"].EvaluateRequest(position=toks[i])
-        resp = await server.Evaluate(req, None)
-        deliveries.append((i, resp))
+    async def client(ids):
+        # one caller; a closed-loop caller submits its next request as soon as it is answered
+        for i in ids:
+            tracer.task_ids[asyncio.current_task()] = i
+            req = S["pb2"].EvaluateRequest(position=toks[i])
+            resp = await server.Evaluate(req, None)
+            deliveries.append((i, resp))
+            tracer.timeline.append("X:%d" % i)
 
-    def start(i):
-        t = loop.create_task(client(i))
-        tracer.task_ids[t] = i
-        clients.append(t)
+    def start(*ids):
+        clients.append(loop.create_task(client(ids)))
 
     clients = []
     asyncio.set_event_loop(loop)
@@ -291,6 +316,10 @@ def run_schedule(sched):
         worker = loop.create_task(server.worker_loop())
         for i, a in enumerate(sched["arrivals"]):
             loop.call_at(a[0] / 1e6, start, i)
+        nxt = len(sched["arrivals"])
+        for lp in sched.get("loops", []):
+            loop.call_at(lp[0] / 1e6, start, *range(nxt, nxt + len(lp[1])))
+            nxt += len(lp[1])
         idle = loop.run_until_idle()
         end_time = loop.time()
         if worker.done() and not worker.cancelled() and worker.exception() is not None:
@@ -308,7 +337,7 @@ def run_schedule(sched):
 
     obs = {
         "cap": cap, "mode": sched["mode"], "events": tracer.events, "idle": bool(idle), "crash": crash,
-        "batches": tracer.batches, "end_ms": round(end_time * 1000, 4), "n": len(toks),
+        "batches": tracer.batches, "end_ms": round(end_time * 1000, 4), "n": len(toks), "timeline": tracer.timeline,
         "batch_times_ms": [round(t * 1000, 4) for e, t in zip(tracer.events, tracer.times) if e.startswith("R:")],
     }
     if sched["mode"] == "fp":
@@ -316,11 +345,10 @@ def run_schedule(sched):
     else:
         local = _local_evals(sched, raw)
         first = {}
-        for i, a in enumerate(sched["arrivals"]):
-            first.setdefault(tuple(toks[i]), i)
         by_tokens = {}
-        for i, a in enumerate(sched["arrivals"]):
-            by_tokens.setdefault(tuple(toks[i]), a[1])
+        for i, p in enumerate(_payloads(sched)):
+            first.setdefault(tuple(toks[i]), i)
+            by_tokens.setdefault(tuple(toks[i]), p)
         dl = []
         for i, r in deliveries:
             probs = np.frombuffer(r.move_probs_bytes, dtype=np.float32)
@@ -355,6 +383,10 @@ def judge_line(obs):
         obs["cap"], obs["mode"], " ".join(obs["events"]),
         " ".join("%d=%s" % d for d in obs["deliveries"]), 1 if obs["idle"] else 0,
     )
+
+
+def progress_line(obs):
+    return "server progress " + " ".join(obs["timeline"])
 
 
 def impl_summary(obs):
@@ -491,6 +523,50 @@ def fp_schedules(ctx):
             t += rng.choice([0, 100, 1000, 1001, 2500, 20000, 60000])
         lat = [rng.choice(LAT) for _ in range(rng.randint(1, 4))]
         yield "mix", sched(times, _rows(rng, len(times)), lat)
+
+
+def loop_schedules(ctx):
+    """Closed-loop load: N callers that re-submit as soon as they are answered (self-play workers),
+    mostly rows of one length, and a few requests of another length injected after some model
+    runs.  Open-loop bursts end before a starved request would show; here the model keeps answering."""
+    rng = ctx.rng
+    for k in range(300 if ctx.thorough else 36):
+        n_clients = rng.choice([2, 3, 4, 4, 6, 8, 12, 20])
+        per = rng.randint(4, 40 if n_clients <= 8 else 15)
+        major = rng.choice([1, 3, 9, 15, 22])
+        lat = [rng.choice([500, 1000, 2500, 10000])]
+        mixed_p = rng.choice([0.0, 0.0, 0.1, 0.5])
+        loops = []
+        for _c in range(n_clients):
+            rows = []
+            for _j in range(per):
+                ln = major if rng.random() >= mixed_p else rng.randint(1, 30)
+                rows.append([_tok(rng, 0.2) for _ in range(ln)])
+            loops.append([rng.choice([0, 0, 0, 100, 1000, lat[0]]), rows])
+        arrivals = []
+        for _i in range(rng.choice([0, 1, 1, 2, 3])):
+            ln = rng.choice([x for x in (1, 2, 5, 16, 31) if x != major])
+            t = rng.randint(1, 8) * lat[0] + rng.choice([0, 1, 500, 1000, 1500])
+            arrivals.append([t, [_tok(rng, 0.2) for _ in range(ln)]])
+        yield "closed-loop", {"mode": "fp", "arrivals": sorted(arrivals), "loops": loops, "latency_us": lat}
+
+
+def real_loop_schedules(ctx):
+    """the same with the real Transformer: callers asking about 3x3 positions, a 4x4/5x5 one injected"""
+    rng = ctx.rng
+    pool = _state.get("positions") or []
+    small = [p for p in pool if p.startswith("3 ")] or pool
+    other = [p for p in pool if not p.startswith("3 ")] or pool
+    for k in range(24 if ctx.thorough else 4):
+        n_clients = rng.choice([2, 4, 6])
+        per = rng.randint(4, 12)
+        lat = [rng.choice([2500, 10000])]
+        loops = [[0, [rng.choice(small) for _ in range(per)]] for _c in range(n_clients)]
+        arrivals = sorted([rng.randint(1, 4) * lat[0] + rng.choice([0, 500, 1500]), rng.choice(other)] for _i in range(rng.choice([1, 2])))
+        yield "real-closed-loop", {
+            "mode": "cls", "arrivals": arrivals, "loops": loops, "latency_us": lat,
+            "model_seed": k % 3, "eval_mode": bool(k % 2), "pe": ["sin", "learned", "none"][k % 3],
+        }
 
 
 def _real_zero_family(rng):
@@ -714,6 +790,177 @@ def end_to_end(pos, seed, ev, pe, latency_us=2500):
         loop.close()
 
 
+def _update_weights(model, kind, seed):
+    """change the served model's weights IN PLACE, the ways a training loop does"""
+    torch = _impl()["torch"]
+    g = torch.Generator().manual_seed(7000 + seed)
+    if kind == "sgd":  # one optimiser step on the module the server holds
+        opt = torch.optim.SGD(model.parameters(), lr=0.05)
+        x = torch.randint(0, 256, (4, 15), generator=g)
+        with torch.enable_grad():
+            opt.zero_grad()
+            out = model(x)
+            loss = out["values"].sum() + 0.1 * torch.logsumexp(out["moves"], dim=-1).sum()
+            loss.backward()
+            opt.step()
+            opt.zero_grad(set_to_none=True)
+    elif kind == "load":  # load_state_dict of other weights into the same module
+        sd = {k: (v + 0.05 * torch.randn(v.shape, generator=g) if v.is_floating_point() else v) for k, v in model.state_dict().items()}
+        model.load_state_dict(sd)
+    else:  # "perturb": parameters modified in place under no_grad
+        with torch.no_grad():
+            for p_ in model.parameters():
+                p_.add_(0.05 * torch.randn(p_.shape, generator=g))
+
+
+def run_session(sess):
+    """One long-lived GRPCNetwork client and one in-process Server holding one nn.Module.  ops:
+    ["eval", pos] — evaluate through the client and compare with ModelWrapper.evaluate on the
+    CURRENT weights; ["update", kind, seed] — the served module's weights change in place.
+    Returns None or (key, what, index of the failing op)."""
+    import copy
+
+    S = _impl()
+    np = S["np"]
+    model = copy.deepcopy(_real_model(sess.get("model_seed", 0), sess.get("eval_mode", False), sess.get("pe", "sin")))
+    lat = sess.get("latency_us", 2500)
+    loop = VirtualTimeLoop(latency=lambda n: lat / 1e6)
+    asyncio.set_event_loop(loop)
+    try:
+        server = S["srv"].Server(model=model)
+        worker = loop.create_task(server.worker_loop())
+        net = S["grpc"].GRPCNetwork("localhost", 0)
+        replies = []
+
+        def route(req):
+            done, resp = loop.run_coro(server.Evaluate(req, None))
+            if not done:
+                raise TimeoutError("server never answered")
+            replies.append(resp)
+            return resp
+
+        net.stub.channel.evaluate = route
+        result = None
+        old = []  # frozen copies of earlier weight versions (to name a stale answer as such)
+        changed = 0
+        for k, op in enumerate(sess["ops"]):
+            if op[0] == "update":
+                old.append(copy.deepcopy(model))
+                _update_weights(model, op[1], op[2])
+                continue
+            pos = ser.parse_pos(op[1].split(" "))
+            n0 = len(replies)
+            try:
+                probs, value = net.evaluate(pos)
+            except TimeoutError:
+                result = ("unanswered", "the server went idle without answering", k)
+                break
+            except Exception as e:
+                result = ("client-decode", "GRPCNetwork.evaluate raises %s" % type(e).__name__, k)
+                break
+            lp, lv = S["wrapper"].ModelWrapper(model=model).evaluate(pos)
+            cur = (lp.numpy(), float(lv))
+            if old and not _close(cur[0], cur[1], tuple((x.numpy() if hasattr(x, "numpy") else float(x)) for x in S["wrapper"].ModelWrapper(model=old[-1]).evaluate(pos))):
+                changed += 1
+            if len(replies) > n0:
+                served = np.frombuffer(replies[-1].move_probs_bytes, dtype=np.float32)
+                if _bits(probs.numpy()) != _bits(served) or float(value) != float(replies[-1].value):
+                    result = ("client-decode", "the client returned a vector/value different from the served reply", k)
+                    break
+            if not _close(probs.numpy(), float(value), cur):
+                key = "not-local-equal"
+                for v_, m_ in enumerate(old):
+                    op_, ov_ = S["wrapper"].ModelWrapper(model=m_).evaluate(pos)
+                    if _close(probs.numpy(), float(value), (op_.numpy(), float(ov_))):
+                        key = "client-stale"
+                        break
+                result = (key, "differs from ModelWrapper.evaluate on the current weights by %.3g (value %.3g)%s" % (
+                    float(np.max(np.abs(probs.numpy() - cur[0]))) if probs.shape == cur[0].shape else float("nan"), abs(float(value) - cur[1]),
+                    "; it equals the evaluation under the weights before update #%d%s" % (v_ + 1, "" if len(replies) > n0 else ", and the server was not asked")
+                    if key == "client-stale" else ""), k)
+                break
+        for t in list(asyncio.all_tasks(loop)) + [worker]:
+            if t.done() and not t.cancelled():
+                t.exception()
+            else:
+                t.cancel()
+        loop.run_until_idle()
+        if result is None:
+            return None, changed
+        return result, changed
+    finally:
+        asyncio.set_event_loop(None)
+        loop.close()
+
+
+def _session_violation(sess, res):
+    key, what, k = res
+    op = sess["ops"][k]
+    return Violation(key, "client session (%d ops, %d weight updates before the failing one): GRPCNetwork.evaluate of [%s] (op %d) %s" % (
+        len(sess["ops"]), sum(1 for o in sess["ops"][:k] if o[0] == "update"), op[1], k, what), {"session": sess})
+
+
+def shrink_session(sess, key):
+    def fails(s_):
+        try:
+            r, _ = run_session(s_)
+        except Exception:
+            return False
+        return r is not None and r[0] == key
+
+    cur = sess
+    i = 0
+    while i < len(cur["ops"]):
+        ops = cur["ops"][:i] + cur["ops"][i + 1:]
+        if ops and fails(dict(cur, ops=ops)):
+            cur = dict(cur, ops=ops)
+        else:
+            i += 1
+    return cur
+
+
+def session_cases(ctx):
+    """long-lived client + server sessions across in-place weight updates.  Returns (divs, violations)."""
+    import tak
+
+    rng = ctx.rng
+    pool = list(_state.get("positions") or [])
+    pool += [ser.pos_str(tak.Position.from_config(tak.Config(size=n))) for n in (3, 4, 5)]
+    divs, vios = [], []
+    seen_keys = set()
+    for k in range(40 if ctx.thorough else 10):
+        ops = []
+        asked = []
+        for phase in range(rng.randint(2, 4)):
+            for _ in range(rng.randint(1, 5)):
+                p_ = rng.choice(asked) if asked and rng.random() < 0.5 else rng.choice(pool)
+                asked.append(p_)
+                ops.append(["eval", p_])
+            ops.append(["update", rng.choice(["sgd", "load", "perturb"]), rng.randint(0, 999)])
+        ops.append(["eval", asked[0]])
+        ops.append(["eval", rng.choice(pool)])
+        sess = {"ops": ops, "model_seed": k % 3, "eval_mode": bool(k % 2), "pe": ["sin", "learned", "none"][k % 3], "latency_us": rng.choice([0, 2500])}
+        res, changed = run_session(sess)
+        ctx.evaluated()
+        ctx.count("session")
+        ctx.count("session:evals", sum(1 for o in ops if o[0] == "eval"))
+        ctx.count("session:re-evaluations-whose-local-result-changed", changed)
+        if changed:
+            ctx.nontrivial(_canon(sess))
+        if res is not None:
+            d = Divergence("corr.server.session", {"session": sess}, "%s at op %d: %s" % (res[0], res[2], res[1]), "equal to ModelWrapper.evaluate on the current weights within 1e-5")
+            d.explained = True
+            divs.append(d)
+            if res[0] not in seen_keys:
+                seen_keys.add(res[0])
+                small = shrink_session(sess, res[0])
+                r2, _ = run_session(small)
+                if r2 is not None and r2[0] == res[0]:
+                    sess, res = small, r2
+                vios.append(_session_violation(sess, res))
+    return divs, vios
+
+
 # --------------------------------------------------------------------------------------------
 # protocol entry points
 # --------------------------------------------------------------------------------------------
@@ -744,14 +991,17 @@ def _account(ctx, label, sched, obs, model_line):
 def _check_runs(ctx, runs):
     """runs: list of (label, sched, obs).  Returns divergences."""
     outs = driver.run_lines([trace_line(o) for _, _, o in runs])
+    prog = driver.run_lines([progress_line(o) for _, _, o in runs])
     divs = []
-    for (label, sched, obs), line in zip(runs, outs):
+    for (label, sched, obs), line, pl in zip(runs, outs, prog):
         _account(ctx, label, sched, obs, line)
         im, mo = impl_summary(obs), model_summary(line)
         if obs["crash"]:
             im = "crash %s %s" % (obs["crash"], im)
         if not obs["idle"]:
             im = "not-idle " + im
+        if pl != "ok":  # the k+1 bound of C17_fifo_progress, evaluated on the observed timeline
+            im = "progress[%s] %s" % (pl, im)
         if im != mo:
             d = Divergence("corr.server", {"schedule": sched, "label": label}, im[:2000], mo[:2000])
             d.obs = obs
@@ -766,6 +1016,10 @@ def tie(ctx):
         runs.append((label, sched, run_schedule(sched)))
     for label, sched in cls_schedules(ctx):
         runs.append((label, sched, run_schedule(sched)))
+    for label, sched in loop_schedules(ctx):
+        runs.append((label, sched, run_schedule(sched)))
+    for label, sched in real_loop_schedules(ctx):
+        runs.append((label, sched, run_schedule(sched)))
     # determinism of the virtual-time runs (a replay must reproduce the run)
     for label, sched, obs in runs[:: max(1, len(runs) // 12)]:
         again = run_schedule(sched)
@@ -778,13 +1032,17 @@ def tie(ctx):
                     "batch_times_ms": obs["batch_times_ms"][:8], "end_ms": obs["end_ms"]})
     divs += codec_cases(ctx)
     cdivs, cvios = client_cases(ctx)
+    sdivs, svios = session_cases(ctx)
+    cdivs, cvios = cdivs + sdivs, cvios + svios
     _state["client_violations"] = cvios
     divs += cdivs
     return divs
 
 
 def _judge(obs):
-    out = driver.run_lines([judge_line(obs)])[0]
+    out, prog = driver.run_lines([judge_line(obs), progress_line(obs)])
+    if out == "ok":
+        out = prog  # every delivered answer is right: did anybody wait longer than the theorem allows?
     if out == "ok":
         return None
     if not out.startswith("violation "):
@@ -795,8 +1053,9 @@ def _judge(obs):
 
 def _violation_of(sched, obs, verdict):
     key, text = verdict
-    what = "schedule of %d requests (latency %s µs), batches %s: %s; trace check: %s" % (
-        obs["n"], sched["latency_us"], obs["batches"][:12], text[:300],
+    what = "schedule of %d requests%s (latency %s µs), batches %s: %s; trace check: %s" % (
+        obs["n"], " incl. %d closed-loop callers" % len(sched["loops"]) if sched.get("loops") else "",
+        sched["latency_us"], obs["batches"][:12], text[:300],
         model_summary(driver.run_lines([trace_line(obs)])[0])[:80],
     )
     if obs["crash"]:
@@ -819,6 +1078,28 @@ def shrink(sched, key):
         s2 = dict(cur, latency_us=cur["latency_us"][:1])
         if fails(s2):
             cur = s2
+    if cur.get("loops"):
+        i = 0  # fewer closed-loop callers, then fewer requests per caller
+        while i < len(cur["loops"]):
+            lps = cur["loops"][:i] + cur["loops"][i + 1:]
+            if fails(dict(cur, loops=lps)):
+                cur = dict(cur, loops=lps)
+            else:
+                i += 1
+        for _round in range(6):
+            lps = [[lp[0], lp[1][: max(1, (len(lp[1]) + 1) // 2)]] for lp in cur["loops"]]
+            if lps != cur["loops"] and fails(dict(cur, loops=lps)):
+                cur = dict(cur, loops=lps)
+            else:
+                break
+        for i in range(len(cur["loops"])):
+            while len(cur["loops"][i][1]) > 1:
+                lps = [list(lp) for lp in cur["loops"]]
+                lps[i][1] = lps[i][1][:-1]
+                if fails(dict(cur, loops=lps)):
+                    cur = dict(cur, loops=lps)
+                else:
+                    break
     chunk = max(1, len(cur["arrivals"]) // 2)
     budget = 120
     while chunk >= 1 and budget > 0:
@@ -827,7 +1108,7 @@ def shrink(sched, key):
         while i < len(cur["arrivals"]) and budget > 0:
             arr = cur["arrivals"][:i] + cur["arrivals"][i + chunk:]
             budget -= 1
-            if arr and fails(dict(cur, arrivals=arr)):
+            if (arr or cur.get("loops")) and fails(dict(cur, arrivals=arr)):
                 cur = dict(cur, arrivals=arr)
                 progressed = True
             else:
@@ -835,7 +1116,15 @@ def shrink(sched, key):
         if chunk == 1 and not progressed:
             break
         chunk = chunk // 2 if chunk > 1 else (1 if progressed else 0)
-    if cur["mode"] == "fp":
+    if cur["mode"] == "fp" and cur.get("loops"):
+        # canonical small content per length class, the same for every request
+        lens = sorted({len(r) for r in _payloads(cur)})
+        rank = {ln: 1 + k for k, ln in enumerate(lens)}
+        small = dict(cur, arrivals=[[a[0], [1 + rank[len(a[1])]] * rank[len(a[1])]] for a in cur["arrivals"]],
+                     loops=[[lp[0], [[1 + rank[len(r)]] * rank[len(r)] for r in lp[1]]] for lp in cur["loops"]])
+        if fails(small):
+            cur = small
+    elif cur["mode"] == "fp" and cur["arrivals"]:
         # shorter rows: first a canonical small content per length class, else token by token
         lens = sorted({len(a[1]) for a in cur["arrivals"]})
         rank = {ln: 1 + k for k, ln in enumerate(lens)}
@@ -907,6 +1196,9 @@ def replay(ctx, data):
         obs = run_schedule(sched)
         verdict = _judge(obs)
         return [_violation_of(sched, obs, verdict)] if verdict else []
+    if "session" in r:
+        res, _ = run_session(r["session"])
+        return [_session_violation(r["session"], res)] if res else []
     if "e2e_pos" in r:
         res = end_to_end(ser.parse_pos(r["e2e_pos"].split(" ")), r.get("model_seed", 0), r.get("eval_mode", False), r.get("pe", "sin"))
         return [Violation(res[0], res[1], r)] if res else []
